@@ -233,15 +233,16 @@ func (s *Sched) Done(owner interface{}) bool {
 //
 //go:norace
 func (s *Sched) Atomic(f func()) {
-	s.lock()
-	s.noYield++
-	s.unlock()
-	defer func() {
-		s.lock()
-		s.noYield--
-		s.unlock()
-	}()
+	s.atomicAdd(1)
+	defer s.atomicAdd(-1)
 	f()
+}
+
+//go:norace
+func (s *Sched) atomicAdd(d int) {
+	s.lock()
+	s.noYield += d
+	s.unlock()
 }
 
 // Yield is a preemption point of the running task.
